@@ -85,6 +85,9 @@ func makeCase(phase string, i int) *copymon.Case {
 			c.SrcKind = "memory"
 		}
 	}
+	if c.API == "ExtendedCopyGraph" && c.SrcKind != "remote" && i%3 == 0 {
+		c.FilterAll = true // the filter fetches predecessor manifests to learn their artifact type
+	}
 	if phase == "single" {
 		c.Conc = []int{1, 3}[i%2]
 	}
@@ -355,6 +358,9 @@ func runCase(phase string, i int) worker.Result {
 				anc = copymon.Ancestors(c.G, c.Root)
 			}
 			n = anc[rng.IntN(len(anc))]
+			if c.FilterAll && !c.SubjectOnly && rng.IntN(2) == 0 {
+				op = "src.Fetch" // the filter's own read of a predecessor manifest
+			}
 		}
 		kind := []string{"error", "error", "cancel", "cancel-silent"}[rng.IntN(4)]
 		faults = append(faults, faultSpec{fmt.Sprintf("%s:%d#0", op, n), kind})
